@@ -1,5 +1,6 @@
 import GV.Lib.Line
 import GV.Model.StoreCbor
+import GV.Model.OffsetsTruthA
 import GV.Model.PreserveTypes
 /-
   ops (feed_impl):
@@ -85,7 +86,10 @@ def handle (line : String) : Out :=
         let model := match modelLocs era b, headerSpan b with
           | some ls, some h => fmtBlock b h ls
           | _, _ => "model-error"
-        let spec := match truth era b, headerSpan b with
+        -- the spec is evaluated with the array-backed machine on absolute positions
+        let ba := b.toArray
+        let spec := match GV.Model.OffsetsTruthA.truth era ba,
+            (GV.Model.OffsetsTruthA.kidsAt ba (0, ba.size)).bind List.head? with
           | some ls, some h => fmtBlock b h ls
           | _, _ => "*"
         { model := model, spec := spec }
